@@ -117,11 +117,14 @@ pub enum Ev {
 pub struct EvRec {
     /// index (in `Trace::execs`) of the contract execution whose response carried the message
     pub exec: usize,
+    /// position in the transaction-wide order of executions and chain events
+    pub seq: usize,
     pub ev: Ev,
 }
 
 #[derive(Clone, Debug, PartialEq)]
 pub struct ExecRec {
+    pub seq: usize,
     pub depth: usize,
     pub caller: String,
     pub callee: String,
@@ -140,7 +143,8 @@ pub struct Trace {
 
 impl Trace {
     fn push(&mut self, exec: usize, ev: Ev) {
-        self.events.push(EvRec { exec, ev });
+        let seq = self.execs.len() + self.events.len();
+        self.events.push(EvRec { exec, seq, ev });
     }
     pub fn evs(&self) -> impl Iterator<Item = &Ev> {
         self.events.iter().map(|e| &e.ev)
@@ -566,7 +570,9 @@ impl World {
             return Err("router: call depth exceeded".into());
         }
         let rec_idx = tr.execs.len();
+        let seq = tr.execs.len() + tr.events.len();
         tr.execs.push(ExecRec {
+            seq,
             depth,
             caller: sender.to_string(),
             callee: contract.to_string(),
